@@ -10,6 +10,10 @@ Fine mode (`fine=True`): every source line of the files that contain anchors is 
 for seeded random exploration judged by the direct property oracle only (local lines commute with other threads' actions,
 so on code whose shared accesses are all anchors this adds no behaviours; it exists to expose NEW unanchored sharing).
 
+Line sweep (`fine=True, fine_files=package_files()`): every executed source line of the WHOLE django_components package is a
+step; `[(A, n), (B, huge), (A, huge)]` parks A before its (n+1)-th line, runs B to completion and resumes A - a single
+pre-emption at line granularity anywhere in the library, also at lines that touch shared state the model does not know.
+
 Schedule semantics (the Gallina model `Conc.Model.run` has the same): a schedule is a list of thread names.
 Each element allows the named thread to execute ONE anchor-step: the anchor statement it is waiting at plus
 everything after it up to (not including) its next anchor statement.  Elements naming a finished thread are
@@ -127,11 +131,23 @@ FINE = _Fine()
 
 
 class Scheduler:
-    def __init__(self, table, names, schedule, timeout=20.0, on_hit=None, fine=False):
+    def __init__(self, table, names, schedule, timeout=20.0, on_hit=None, fine=False, fine_files=None, locs=False):
         self.table = table
         self.files = {k[0] for k in table}
+        if fine and fine_files:
+            self.files = self.files | set(fine_files)      # line sweep: every line of these files is a step
+        self.locs = locs               # fine mode: record "file:line" of every plain line (to enumerate source lines)
         self.names = list(names)
-        self.sched = list(schedule)
+        # the schedule is kept as [thread, count] segments (a flat list of names is accepted too)
+        self.sched = []
+        for x in schedule:
+            t, k = (x, 1) if isinstance(x, str) else x
+            if k <= 0:
+                continue
+            if self.sched and self.sched[-1][0] == t:
+                self.sched[-1][1] += k
+            else:
+                self.sched.append([t, k])
         self.pos = 0
         self.cv = threading.Condition()
         self.baton = None
@@ -146,10 +162,10 @@ class Scheduler:
 
     # -- who runs next -------------------------------------------------------------------------
     def _next_runner(self):
-        while self.pos < len(self.sched) and self.sched[self.pos] in self.done:
+        while self.pos < len(self.sched) and (self.sched[self.pos][0] in self.done or self.sched[self.pos][1] <= 0):
             self.pos += 1
         if self.pos < len(self.sched):
-            return self.sched[self.pos]
+            return self.sched[self.pos][0]
         for n in self.names:
             if n not in self.done:
                 return n
@@ -173,7 +189,7 @@ class Scheduler:
                 r = self._next_runner()
                 if r == me:
                     if self.pos < len(self.sched):
-                        self.pos += 1
+                        self.sched[self.pos][1] -= 1
                     self.trace.append((me, anchor.name, detail))
                     self.last_progress = time.time()
                     return
@@ -208,7 +224,7 @@ class Scheduler:
                             d = "?" + type(e).__name__
                     self.at_anchor(me, a, d)
                 elif self.fine:
-                    self.at_anchor(me, FINE, None)
+                    self.at_anchor(me, FINE, "%s:%d" % (rp, frame.f_lineno) if self.locs else None)
                 self._prev[(me, id(frame))] = frame.f_lineno
             elif event == "return":
                 self._prev.pop((me, id(frame)), None)
@@ -271,9 +287,20 @@ class Scheduler:
         return out, list(self.trace), bool(self.abort or hung)
 
 
-def run_schedule(table, tasks, names, schedule, timeout=20.0, fine=False):
-    s = Scheduler(table, names, schedule, timeout=timeout, fine=fine)
+def run_schedule(table, tasks, names, schedule, timeout=20.0, fine=False, fine_files=None, locs=False):
+    s = Scheduler(table, names, schedule, timeout=timeout, fine=fine, fine_files=fine_files, locs=locs)
     return s.run(tasks)
+
+
+def package_files(root=None):
+    """real paths of every source file of the django_components package (line sweep: each of their lines is a step)."""
+    root = root or SRC
+    out = set()
+    for d, _, fs in os.walk(root):
+        for f in fs:
+            if f.endswith(".py"):
+                out.add(os.path.realpath(os.path.join(d, f)))
+    return out
 
 
 def run_solo(table, name, fn, timeout=20.0):
